@@ -17,7 +17,7 @@ class AssumeFailed(Exception):
 class RealEnv:
     mode = 'real'
 
-    def __init__(self, inputs=None, seed=None, rtol=1e-8):
+    def __init__(self, inputs=None, seed=None, rtol=1e-10):
         import torch
         import numpy
         import torchtt
@@ -190,7 +190,7 @@ class RealEnv:
             err, scale = 0.0, 1.0
         else:
             err = float((a64 - b64).abs().max())
-            scale = max(1.0, float(a64.abs().max()), float(b64.abs().max()))
+            scale = max(1e-300, float(a64.abs().max()), float(b64.abs().max()))          # relative to the data (a candidate may live at scale 1e-17)
         tol = self.rtol
         if a.dtype in (self.tn.float32, self.tn.complex64) or b.dtype in (self.tn.float32, self.tn.complex64):
             tol = max(tol, 1e-4)
